@@ -22,6 +22,7 @@ from yv.engine.real import S, Dual, Env, Ctx
 from yv.props import common as cm
 
 TAU = real.Fr(1, 10000)
+TAU_NOISE = real.Fr(1, 10**10)
 # modules whose numbers are transcriptions of published fits with 5-6 significant digits
 PARAM_MODULE_MARKERS = (".light.nnlo.", ".light.n3lo.")
 
@@ -73,8 +74,16 @@ def build(ctx, cls, kws, nf, proc):
 # ---------------------------------------------------------------------------------------------
 
 
+# local parts whose identity needs functional relations between complex trilogarithms at z, 1-z and 1/(1-z): the
+# exact query returns a spurious candidate (atoms are free) and the tolerance query does not finish (188 s): not decided,
+# listed in the evidence as outside the claim instead of being reported either way
+UNDECIDED_LOC = {"yadism.coefficient_functions.asy.g1_nc_raw.c2ns_NNLL_loc"}
+
+
 def eval_rsl(ctx, rsl, mode):
     """Returns dict with residual term(s) for the identity; runs inside an explorer run."""
+    if rsl.loc is not None and _fn_name(rsl.loc) in UNDECIDED_LOC:
+        raise real.NotEncodable(f"{_fn_name(rsl.loc)}: trilogarithm relations not decidable here (listed as outside the claim)")
     z = ctx.var("z", 0, 1)
     out = {"has": (rsl.reg is not None, rsl.sing is not None, rsl.loc is not None)}
     if rsl.loc is None and rsl.sing is None:
@@ -298,7 +307,9 @@ def check_item(chk, item, seed, tier):
                                 chk.sample({"obligation": label, "claim": "d loc/dz + sing == 0",
                                             "verdict": "unsat (negation)", "secs": round(v.secs, 4)})
                             continue
-                        if rec["param"] and v.status == "sat":
+                        if v.status == "sat":
+                            # transcribed fits: tau = 1e-4; analytic families: tau = 1e-10, which only forgives the float noise of
+                            # transcendental constants the source mixes (np.pi**2/3 next to 2*zeta2) -- any real edit is larger
                             retry_env = True
                             continue
                         if v.status == "unknown":
@@ -313,7 +324,8 @@ def check_item(chk, item, seed, tier):
                         chk.report(f"identity:{fam}.{mname}.{cname}:o{order}",
                                    f"{label}: local part is not delta - int_0^x sing (exact family)", "identity", args)
                     else:
-                        claim = z3.And(rec["resid"].t <= (TAU * rec["env"]).t, -rec["resid"].t <= (TAU * rec["env"]).t)
+                        tau = TAU if rec["param"] else TAU_NOISE
+                        claim = z3.And(rec["resid"].t <= (tau * rec["env"]).t, -rec["resid"].t <= (tau * rec["env"]).t)
                         chk.obligations += 1
                         chk.nontrivial.add(f"{fam}.{mname}.{cname}/o{order}")
                         v = chk.prover.prove(claim, assumptions, label + ":tau")
@@ -321,16 +333,16 @@ def check_item(chk, item, seed, tier):
                         if v.status == "unsat":
                             chk.discharged += 1
                             chk.section("tau_identity", proved=1)
-                            chk.section("tau_functions", **{f"{fam}.{mname}.{cname}/o{order}": "tau=1e-4"})
+                            chk.section("tau_functions", **{f"{fam}.{mname}.{cname}/o{order}": f"tau={float(tau):g}"})
                             continue
                         if v.status == "unknown":
                             chk.inconclusive_note(f"{label}: tau identity unknown")
                             continue
                         mm = model_masses(ctx, v.model, kws)
                         args.update(xB=mm["xB"], Q2=mm["Q2"], masses={k: mm[k] for k in kws},
-                                    zs=candidate_zs(ctx, v.model), tau=float(TAU))
+                                    zs=candidate_zs(ctx, v.model), tau=float(tau))
                         chk.report(f"identity:{fam}.{mname}.{cname}:o{order}",
-                                   f"{label}: local part deviates from delta - int_0^x sing beyond tau=1e-4",
+                                   f"{label}: local part deviates from delta - int_0^x sing beyond tau={float(tau):g}",
                                    "identity", args)
                 if mode == "exact" and not retry_env:
                     break
